@@ -114,7 +114,7 @@ pub fn toml_text(opts: &[(String, String)]) -> String {
     for (k, v) in opts {
         if k == "sort_requires" {
             sort = Some(v.clone());
-        } else if model::INT_OPTIONS.contains(&k.as_str()) {
+        } else if model::INT_OPTIONS.contains(&k.as_str()) || k == "no_call_parentheses" {
             s.push_str(&format!("{k} = {v}\n"));
         } else {
             s.push_str(&format!("{k} = \"{v}\"\n"));
@@ -385,7 +385,10 @@ fn fault(site: &str, wp: &str, kind: &str) -> Fault {
 fn maybe_cwd_config(rng: &mut Rng, w: &mut World) {
     if rng.chance(35) {
         let name = if rng.chance(70) { "stylua.toml" } else { ".stylua.toml" };
-        let o = random_option_set(rng, 3);
+        let mut o = random_option_set(rng, 3);
+        if rng.chance(8) {
+            o.push(("no_call_parentheses".into(), "true".into()));
+        }
         w.files.insert(format!("{CWD}/{name}"), toml_text(&o).into_bytes());
     }
 }
@@ -717,7 +720,11 @@ pub fn gen_config(rng: &mut Rng) -> Case {
     for l in levels {
         if rng.chance(30) {
             let name = if rng.chance(65) { "stylua.toml" } else { ".stylua.toml" };
-            let o = random_option_set(rng, 3);
+            let mut o = random_option_set(rng, 3);
+            if rng.chance(8) {
+                // the deprecated spelling, possibly beside `call_parentheses`
+                o.push(("no_call_parentheses".into(), "true".into()));
+            }
             w.files.insert(format!("{l}/{name}"), toml_text(&o).into_bytes());
         }
     }
